@@ -56,6 +56,7 @@ def required_cells(tier):
                 "history:getters-read-in-between": 3,
                 "history:estimate-then-compute": 1,
                 "history:factory-results-adapted-in-place": 1,
+                "history:object-reused-inside-one-operation": 2,
                 "history:process-tensor-edited-after-use": 1,
                 "attr:alpha": 1,
                 "attr:temperature": 1, "attr:cutoff": 1, "attr:zeta": 1,
@@ -653,6 +654,65 @@ def run_history(case):
         edit_devs.append(float(np.abs(edited - scratch).max()))
         return np.zeros(1)
 
+    reuse_devs = []
+
+    def op_chainctl(ob, pt):
+        """One ChainControl object (two controls composed on one site and
+        step) serves two chain computations: the second must see what the
+        first saw."""
+        k1 = scen.random_superop(gen.rng_for(case["seed"], "c20cc1", i), d,
+                                 "unitary")
+        k2 = scen.random_superop(gen.rng_for(case["seed"], "c20cc2", i), d,
+                                 "channel")
+        cc = oqupy.ChainControl([d, d])
+        cc.add_single_site_control(k1, 0, 1)
+        cc.add_single_site_control(k2, 0, 1)
+        cc.add_single_site_control(k1, 1, 2, post=True)
+        cc.add_single_site_control(k2, 1, 2, post=True)
+        chain = oqupy.SystemChain([d, d])
+        chain.add_site_hamiltonian(0, h.copy())
+        chain.add_nn_hamiltonian(0, o.copy(), o.copy())
+        runs = []
+        for _ in range(2):
+            r = oqupy.PtTebd(oqupy.AugmentedMPS([rho.copy(), rho.copy()]),
+                             chain, [None, None], ob["tparams"],
+                             chain_control=cc,
+                             dynamics_sites=[0, 1]).compute(
+                n, progress_type="silent")
+            runs.append(np.array([r["dynamics"][0].states,
+                                  r["dynamics"][1].states]))
+        reuse_devs.append(("ChainControl used by a second PtTebd",
+                           float(np.abs(runs[1] - runs[0]).max())))
+        return runs[0]
+
+    def op_bathdyn(ob, pt):
+        """TwoTimeBathCorrelations asked for an early time first and a later
+        time afterwards answers the later question like a fresh object."""
+        od = np.diag(np.diag(o).real).astype(complex)
+        bath_d = oqupy.Bath(od, ob["corr"])
+        ptd = oqupy.pt_tempo_compute(bath_d, 0.0, lib.end_time(0.0, dt, 4),
+                                     ob["params"], progress_type="silent")
+        sd_ = oqupy.System(np.diag(np.diag(h).real).astype(complex))
+        rd = np.diag(np.real(np.diag(rho))).astype(complex)
+        rd = rd / np.trace(rd)
+        vals = []
+        for early in (True, False):
+            bd = oqupy.TwoTimeBathCorrelations(sd_, bath_d, ptd,
+                                               initial_state=rd)
+            if early:
+                bd.correlation(1.1, dt, 0.9, dt, dw=(0.01, 0.01),
+                               dagg=(1, 0), progress_type="silent")
+                bd.correlation(0.7, dt, 0.9, 2 * dt, dw=(0.01, 0.01),
+                               dagg=(0, 1), progress_type="silent")
+            c_late = bd.correlation(1.1, 2 * dt, 0.9, 3 * dt,
+                                    dw=(0.01, 0.01), dagg=(1, 0),
+                                    progress_type="silent")
+            vals.append(complex(c_late))
+        reuse_devs.append(("TwoTimeBathCorrelations after an earlier-time "
+                           "query", abs(vals[0] - vals[1])
+                           / max(abs(vals[1]), 1e-30)))
+        return np.zeros(1)
+
     factory_devs = []
 
     def op_factory(ob, pt):
@@ -702,7 +762,8 @@ def run_history(case):
         return b"".join(np.ascontiguousarray(x, dtype=complex).tobytes()
                         for x in parts)
 
-    ops = {"factory": op_factory, "ptedit": op_ptedit, "guess": op_guess, "peek": op_peek, "tempo": op_tempo, "dyn": op_dyn, "corr": op_corr,
+    ops = {"chainctl": op_chainctl, "bathdyn": op_bathdyn,
+           "factory": op_factory, "ptedit": op_ptedit, "guess": op_guess, "peek": op_peek, "tempo": op_tempo, "dyn": op_dyn, "corr": op_corr,
            "grad": op_grad, "tebd": op_tebd, "pt": op_pt, "eta": op_eta,
            "ctl": op_ctl, "ctl_shift": op_ctl_shift, "ctl_dt": op_ctl_dt}
     names = list(ops)
@@ -715,6 +776,8 @@ def run_history(case):
         seq[-1] = "ptedit"
     if i % 4 == 0:
         seq[0] = "factory"
+    if i % 4 == 1:
+        seq[-1] = ["chainctl", "bathdyn"][(i // 4) % 2]
     if i % 4 == 3:
         # estimate first, compute afterwards
         seq[0] = "guess"
@@ -772,6 +835,13 @@ def run_history(case):
                         f"differs from one built with the new tensors from "
                         f"scratch by {max(edit_devs):.3e}",
                 "mechanism": "stale-state", "detail": {"seq": seq}})
+    for what_, dv_ in reuse_devs:
+        cells.append("history:object-reused-inside-one-operation")
+        if dv_ > 1e-7:
+            violations.append({
+                "what": f"{what_}: differs from the first / a fresh use by "
+                        f"{dv_:.3e}", "mechanism": "stale-state",
+                "detail": {"seq": seq}})
     if factory_devs:
         cells.append("history:factory-results-adapted-in-place")
         bad = [x for x in factory_devs if x[2] > 0]
